@@ -130,7 +130,7 @@ pub fn run(plan: &Plan, depth: usize, threads: usize, presets: &[u8]) -> (Campai
                             break;
                         }
                         if let Some(v) = first_relevant(plan.prop, &r) {
-                            local.failure = Some(Failure { case, violation: v, shard: i });
+                            local.failure = Some(Failure { case, violation: v, shard: i, reuse_addresses: plan.opts.reuse_addresses });
                             stop.store(1, Ordering::SeqCst);
                             break;
                         }
